@@ -38,6 +38,8 @@ CONSTANTS MaxListeners,   \* bound on [[listeners]]
           Deviations,     \* open known findings modelled as the code behaves ({"DupFrontendAccepted"}) and the
                           \* self-test slips TLC must refute ("FrontKeyDropsMethod", "BackendKeyDropsAddress",
                           \* "CertKeyDropsAddress": a state key that forgets one field of an object's identity)
+          EmitDeviations, \* the open deviations under which the generator prints the code outcomes (field `code`):
+                          \* lets ONE TLC pass check P_C20 with Deviations = {} and print the REPLAY lines
           Focus,          \* "all": every optional key of the universe; "identity": only the keys that take part in
                           \* the identity of some declared object (+ the non-identity decoys), so that the size
                           \* budget is spent on files holding two objects that differ in ONE identity field
@@ -429,8 +431,8 @@ Pairing(F, o) ==
            KnownInit(F), o.cs)
 
 \* the frontends the corrected loader would refuse (deviation DupFrontendAccepted: the real one does not look)
-DuplicateCheckFails(F) ==
-  /\ "DupFrontendAccepted" \notin Deviations
+DuplicateCheckFails(F, D) ==
+  /\ "DupFrontendAccepted" \notin D
   /\ \E x, y \in FrontsOf(F) : x # y /\ x.c.proto = "http" /\ y.c.proto = "http" /\ RouteKey(x.f) = RouteKey(y.f)
 
 \* the built Config: listeners per kind in push order
@@ -448,12 +450,12 @@ ConfigListeners(F, st) ==
                                     IF kind = "https" THEN <<"h2", "http/1.1">> ELSE <<>>, "absent", "none")]
   IN of("http") \o of("https") \o of("tcp") \o of("udp")
 
-LoadError(F, o) ==
+LoadError(F, o, D) ==
   \/ ParseError(F)
   \/ \E l \in F.ls : ListenerError(l)
   \/ \E c \in F.cs : ClusterError(F, c)
   \/ Pairing(F, o).err
-  \/ DuplicateCheckFails(F)
+  \/ DuplicateCheckFails(F, D)
   \/ F.g.buffer_size = "small" /\ LET ls == ConfigListeners(F, Pairing(F, o))
                                   IN \E i \in 1..Len(ls) : ls[i].kind = "https" /\ HasH2(ls[i].alpn)
 
@@ -533,8 +535,9 @@ Dispatch(s, m) ==
 
 Apply(s, msgs) == FoldLeft(Dispatch, s, msgs)
 
-Run(F, o) ==
-  IF LoadError(F, o) THEN [loaded |-> FALSE]
+\* D: the deviations of the loader (the slips of ConfigState are read from the constant)
+RunD(F, o, D) ==
+  IF LoadError(F, o, D) THEN [loaded |-> FALSE]
   ELSE LET msgs == Messages(F, o)
            s1 == Apply(EmptyState, msgs)
            s2 == Apply([s1 EXCEPT !.rej = 0], msgs)
@@ -543,6 +546,8 @@ Run(F, o) ==
            \* the only rejections a reload may produce: listeners and frontends that already exist
            reload_expected |-> Cardinality({ i \in 1..Len(msgs) :
                                  msgs[i].t \in {"AddListener", "AddHttpFrontend", "AddHttpsFrontend", "AddTcpFrontend", "AddUdpFrontend"} })]
+
+Run(F, o) == RunD(F, o, Deviations)
 
 ---------------------------------------------------------------------------
 (* Properties (C20) *)
@@ -644,7 +649,7 @@ DecoyPairs(F) ==
 (* open deviations) the outcomes the CODE reading allows.                  *)
 
 Outcome(F, o) ==
-  LET r == Run(F, o) IN
+  LET r == RunD(F, o, Deviations \cup EmitDeviations) IN
   IF r.loaded THEN [loaded |-> TRUE, nmsg |-> r.nmsg, rejected |-> r.rejected, reload_rejected |-> r.reload_rejected,
                     state |-> [listeners |-> r.state.listeners, clusters |-> r.state.clusters,
                                http_fronts |-> r.state.http_fronts, https_fronts |-> r.state.https_fronts,
@@ -669,6 +674,7 @@ EmitFile ==
                        nmsg |-> IF v = {} THEN Run(F, o1).nmsg ELSE 0,
                        reload_rejected |-> IF v = {} THEN Run(F, o1).reload_expected ELSE 0,
                        \* only when a deviation explains a difference from the document reading
-                       code |-> IF Deviations # {} /\ \E o \in Orders(F) : Run(F, o).loaded # (v = {})
+                       code |-> IF Deviations \cup EmitDeviations # {}
+                                   /\ \E o \in Orders(F) : RunD(F, o, Deviations \cup EmitDeviations).loaded # (v = {})
                                 THEN { Outcome(F, o) : o \in Orders(F) } ELSE {}])>>)
 =============================================================================
